@@ -82,7 +82,7 @@ def run_fuzz_case(ctx, kind_, idx):
             info["history"] = W.random_history(rng, wv, 1, 5, max_len=600)
             wx, wy = wv.get()
             n, nr = len(wx), len(wv.get_reference()[0])
-            t = int(rng.integers(0, 8))
+            t = int(rng.integers(0, 9))
             lo, hi = float(wx[0]), float(wx[-1])
             if t == 0:
                 a = (int(rng.integers(-2, n + 3)), None if rng.integers(0, 3) == 0 else int(rng.integers(-2, max(n, nr) + 3)))
@@ -103,6 +103,14 @@ def run_fuzz_case(ctx, kind_, idx):
                 a = (float(rng.uniform(-0.2, 1.2)), float(rng.uniform(-0.2, 1.2)))
                 info["request"] = ["truncate_by_value(ratios)", list(a)]
                 call = lambda: wv.truncate_by_value(a[0], a[1], True, True)
+            elif t == 8:
+                # one bound as a ratio, the other as a value: after reshaping the working and the reference series may
+                # span different ranges, so the same request can be valid for one and inverted for the other
+                r_, v_ = float(rng.uniform(-0.1, 1.1)), float(rng.uniform(lo - 0.1 * (hi - lo), hi + 0.1 * (hi - lo)))
+                left_ratio = bool(rng.integers(0, 2))
+                a = (r_, v_, True, False) if left_ratio else (v_, r_, False, True)
+                info["request"] = ["truncate_by_value(mixed)", list(a)]
+                call = lambda: wv.truncate_by_value(*a)
             elif t == 4:
                 pick = lambda: float(wx[int(rng.integers(0, n))]) if rng.integers(0, 2) else \
                     (float(rng.uniform(lo, hi)) if rng.integers(0, 4) else 0)
@@ -206,7 +214,15 @@ def run_case(ctx, kind_, idx):
                         kw["fixed_points_indices_in_x"] = [j]
                 elif c == "strategy_matching_function":
                     kw["fixed_points_finding_strategy"] = bogus(rng, ("closest", "lower", "higher"))
-                    if rng.integers(0, 4) == 0:
+                    if rng.integers(0, 3) == 0:
+                        # valid explicit fixed points next to the unknown name: the name is not needed then, it is
+                        # refused all the same ("with arbitrary surrounding valid arguments")
+                        if rng.integers(0, 2):
+                            kw["fixed_points_in_x"] = [float(v) for v in x]
+                        else:
+                            kw["fixed_points_indices_in_x"] = list(range(0, len(xs), n))
+                        info["explicit_fixed_points"] = True
+                    elif rng.integers(0, 4) == 0:
                         # nothing to look up (an emptied reference): the name is examined all the same
                         ref_x, ref_y = ([], []) if rng.integers(0, 2) else (np.array([]), np.array([]))
                         info["empty_reference"] = True
@@ -332,6 +348,14 @@ def run_case(ctx, kind_, idx):
                     else:
                         d2 = float(wx[-1] - wx[-2]) * float(rng.choice([0.5, -0.5, 1e-9]))
                         g[-1] = g[-1] + (d2 if g[-1] + d2 > g[-2] else abs(d2))
+                    if rng.integers(0, 3) == 0:
+                        # same range, other END POINTS: the grid built backwards, or its two ends exchanged
+                        g = np.linspace(float(wx[0]), float(wx[-1]), int(rng.integers(4, 30)))
+                        if rng.integers(0, 2):
+                            g = g[::-1].copy()
+                        else:
+                            g[0], g[-1] = g[-1], g[0]
+                        info["grid_order"] = "reversed_or_ends_exchanged"
                     if g[0] == wx[0] and g[-1] == wx[-1]:      # the tiny offset vanished in rounding: use a visible one
                         if c == "grid_first_point":
                             g[0] = float(wx[0]) - 0.5 * float(wx[1] - wx[0])
